@@ -9,6 +9,7 @@ CONSTANTS
   MaxCmds = 3
   Concurrent = FALSE
   AllowInstant = TRUE
+  AllowCrash = TRUE
   AllowEarly = FALSE
   TickInPrune = TRUE
   UntypedDedup = FALSE
